@@ -227,6 +227,17 @@ func GoNamed(name string, f func()) {
 	Do(&Op{Kind: "go", Obj: name})
 }
 
+// GoDetached starts a controlled thread from controller context (timer
+// callbacks): no scheduling point for a parent because there is none.
+func GoDetached(name string, f func()) {
+	x := cur
+	if x == nil {
+		go f()
+		return
+	}
+	x.spawn(fmt.Sprintf("%s%d", name, len(x.threads)), f, false)
+}
+
 // GoDaemon starts a thread that is not required to finish.
 func GoDaemon(name string, f func()) {
 	x := cur
@@ -573,13 +584,7 @@ type Timer struct {
 }
 
 // Now returns the virtual time (real time outside an execution).
-func Now() time.Time {
-	x := cur
-	if x == nil {
-		return time.Now()
-	}
-	return x.Base.Add(time.Duration(x.clock))
-}
+func Now() time.Time { return VNow() }
 
 // ClockNanos returns virtual nanoseconds since the base.
 func ClockNanos() int64 {
@@ -712,4 +717,32 @@ func Sleep(d time.Duration) {
 	Do(&Op{Kind: "sleep", Obj: d.String(),
 		Enabled: func() bool { return x.clock >= at },
 		WakeAt:  func() (int64, bool) { return at, true }})
+}
+
+// ---------------------------------------------------------------------------
+// Manual clock for sequential histories (no execution active).
+
+var manualOn bool
+var manualOffset int64
+var manualBase = time.Date(2030, 1, 1, 0, 0, 0, 0, time.UTC)
+
+// SetManualClock switches Now() to a harness-driven clock outside executions
+// and resets it to the base instant.
+func SetManualClock(on bool) {
+	manualOn = on
+	manualOffset = 0
+}
+
+// ManualAdvance moves the manual clock.
+func ManualAdvance(d time.Duration) { manualOffset += int64(d) }
+
+// VNow is Now with manual-clock support.
+func VNow() time.Time {
+	if cur != nil {
+		return cur.Base.Add(time.Duration(cur.clock))
+	}
+	if manualOn {
+		return manualBase.Add(time.Duration(manualOffset))
+	}
+	return time.Now()
 }
